@@ -76,6 +76,9 @@ func NewAsyncProducer(t ErrorReporter, config *sarama.Config) *AsyncProducer {
 						if err != nil {
 							mp.t.Errorf("Check function returned an error: %s", err.Error())
 							mp.errors <- &sarama.ProducerError{Err: err, Msg: msg}
+							// the check error is this message's outcome
+							mp.l.Unlock()
+							continue
 						}
 					}
 					if expectation.Result == errProduceSuccess {
